@@ -73,11 +73,12 @@ def make_case(ctx, rng):
             n = {"low": rng.randint(3, 10), "mid": rng.randint(10, 40), "high": rng.randint(40, 90)}[depth_mode]
             lr = rng.choice([(60, 150), (120, 350), (250, 700)])
             reads += synth.simulate_reads(rng, sc, s, c, n, len_range=lr, paired_fraction=rng.choice([0, 0, 0.4]),
-                                          edge_fraction=rng.choice([0.0, 0.3, 0.7]))
+                                          edge_fraction=rng.choice([0.0, 0.3, 0.7]),
+                                          softclip_fraction=rng.choice([0.0, 0.0, 0.5]))
     opts = {"tag": rng.choice(["PS", "HP"]), "only_snvs": rng.random() < 0.2,
             "downsampling": rng.choice([2, 3, 4, 6, 15]),
             "samples": None, "nbam": rng.choice([1, 1, 2]), "rg_per_sample": rng.choice([1, 1, 2, 3]),
-            "mapq0": rng.random() < 0.25}
+            "mapq0": rng.random() < 0.25, "ignore_rg": nsamples == 1 and rng.random() < 0.3}
     if opts["mapq0"]:
         # run with --mapping-quality 0 and give reads arbitrary mapping qualities incl. 0: every read must then be
         # used with its full base-quality weights
@@ -125,6 +126,8 @@ def run_case(ctx, sc, reads, opts, wd):
         args.append("--only-snvs")
     if opts.get("mapq0"):
         args += ["--mapping-quality", "0"]
+    if opts.get("ignore_rg"):
+        args.append("--ignore-read-groups")
     for s in opts["samples"] or []:
         args += ["--sample", s]
     if not bams:
@@ -282,6 +285,12 @@ def do_runs(ctx, specs):
         ctx.tally("bam_files", opts.get("nbam", 1))
         ctx.tally("read_groups_per_sample", opts.get("rg_per_sample", 1))
         ctx.tally("runs_with_mapq0_option", 1 if opts.get("mapq0") else 0)
+        ctx.tally("runs_with_ignore_read_groups", 1 if opts.get("ignore_rg") else 0)
+        ctx.tally("runs_with_only_snvs", 1 if opts["only_snvs"] else 0)
+        ctx.tally("runs_with_sample_subset", 1 if opts["samples"] else 0)
+        ctx.tally("reads_soft_clipped", sum(1 for r in reads if r["cigar"] and r["cigar"][0][0] == "S" or r["cigar"][-1][0] == "S"))
+        ctx.tally("reads_total", len(reads))
+        ctx.tally("downsampling." + str(opts["downsampling"]))
         ctx.tally("samples", len(sc.samples))
         if k < 2:
             ctx.sample({"opts": opts, "samples": sc.samples, "chroms": sc.chroms,
